@@ -263,5 +263,5 @@ def beyond_universe(rep, seed, n):
 
 
 def replay(rep, body):
-    print(body['what'])
-    return False
+    from ..evidence import rerun_and_match
+    return rerun_and_match(run, body)
